@@ -66,7 +66,8 @@ def val():
     return float(_n[0])
 
 
-PATHS = ['a.x', 'a.y', 'a.b.x', 'a.b.y', 'a.b.b.x', 'c.x', 'c.y', 'c.param', 'a.x', 'a.b.x', 'a.x:bounds', 'c.y:bounds', 'a.b.x:bounds']
+PATHS = ['a.x', 'a.y', 'a.b.x', 'a.b.y', 'a.b.b.x', 'c.x', 'c.y', 'c.param', 'a.x', 'a.b.x', 'a.x:bounds', 'c.y:bounds', 'a.b.x:bounds',
+         'a.b', 'a.b.b', 'a.param', 'a.b.param']       # (also the sub-object held by a sub-object as a value of its own)
 
 
 def run_case(idx, rng, P, rep):
@@ -118,9 +119,15 @@ def run_case(idx, rng, P, rep):
         ns['__bool__'] = lambda self: False
     Top = type(f'Top{idx}', (param.Parameterized,), ns)
 
+    named = rng.random() < 0.3
+
+    def same_name():
+        # explicitly named objects: a replacement carries the same name as the object it replaces
+        return dict(name='part') if named else {}
+
     def new_node(depth, like=None, differ=None):
         """A Node chain of given depth; values copied from `like` (same shape) except the leaves listed in differ."""
-        n = Node(x=val(), y=val())
+        n = Node(x=val(), y=val(), **same_name())
         if like is not None:
             n.x = like.x if 'x' not in (differ or ()) else val()
             n.y = like.y if 'y' not in (differ or ()) else val()
@@ -131,7 +138,7 @@ def run_case(idx, rng, P, rep):
         return n
 
     builder[0] = lambda: new_node(rng.randint(1, 3))
-    top = Top(a=new_node(rng.randint(1, 3)), c=Leaf(x=val(), y=val())) if rng.random() < 0.8 else Top()
+    top = Top(a=new_node(rng.randint(1, 3)), c=Leaf(x=val(), y=val(), **same_name())) if rng.random() < 0.8 else Top()
     ever = []      # every object ever attached anywhere
 
     def reachable():
@@ -169,7 +176,7 @@ def run_case(idx, rng, P, rep):
                 return UNRES
             return getattr(o.param[leaf], slot)
         if leaf == 'param':
-            return tuple((pn, getattr(o, pn)) for pn in sorted(o.param))
+            return (('<object>', id(o)),) + tuple((pn, getattr(o, pn)) for pn in sorted(o.param))
         if leaf not in o.param:
             return UNRES
         return getattr(o, leaf)
@@ -342,8 +349,16 @@ def run_case(idx, rng, P, rep):
                         unresolved = True
                     continue      # a leaf assignment cannot change a value that is not reached at all
                 if d.endswith('.param'):
-                    vs = [EQ(x[1], y[1]) for x, y in zip(b, a)] if len(a) == len(b) else [DIFFERENT]
+                    vs = [EQ(x[1], y[1]) for x, y in zip(b[1:], a[1:])] if len(a) == len(b) else [DIFFERENT]
+                    if (b[0] != a[0] or kind.split(':')[0] in ('replace', 'reattach', 'detach')) and DIFFERENT not in vs:
+                        # an object (re-)attached on the path whose parameter values all equal the previous ones (same name
+                        # included, possibly the very same object): may or may not count as a change of "all its parameters"
+                        vs.append(UNSPEC)
                     verdicts.append(DIFFERENT if DIFFERENT in vs else (UNSPEC if UNSPEC in vs else EQUAL))
+                elif isinstance(b, param.Parameterized) or isinstance(a, param.Parameterized):
+                    # an object-valued dependency: another object is a change; re-assigning the very same object may or may
+                    # not count (objects without a registered comparison are never "equal" for changes-only purposes)
+                    verdicts.append(UNSPEC if b is a else DIFFERENT)
                 else:
                     verdicts.append(EQ(b, a))
             if unresolved:
@@ -355,7 +370,8 @@ def run_case(idx, rng, P, rep):
             lo, hi = (1, 1) if due else ((0, 1) if maybe else (0, 0))
             if not lo <= got <= hi:
                 changed = [d for d in deps if before[mi][d] is not UNRES and after[mi][d] is not UNRES and
-                           not d.endswith('.param') and EQ(before[mi][d], after[mi][d]) == DIFFERENT]
+                           not d.endswith('.param') and not isinstance(before[mi][d], param.Parameterized) and
+                           not isinstance(after[mi][d], param.Parameterized) and EQ(before[mi][d], after[mi][d]) == DIFFERENT]
                 sub = ''
                 if got < lo and kind.startswith(('replace', 'reattach')) and changed and deps.index(changed[0]) > 0 and \
                         any(d.split('.')[0] == changed[0].split('.')[0] for d in deps[:deps.index(changed[0])]):
